@@ -145,9 +145,9 @@ theorem entity_shares (h : Fam c A B T q fs) (SA SB : Schema) (D : Data) (e : En
 
 /-- side conditions on the keys of the two shares of one element -/
 theorem shares_good (h : Fam c A B T q fs) (i : String) (ra rb : List (String × J))
-    (hi : '#' ∉ i.toList) (hine : i ≠ "")
+    (hine : i ≠ "")
     (hkA : J.keys ra = namesOf (fsA fs)) (hkB : J.keys rb = namesOf (fsB fs)) (hne : ra ++ rb ≠ []) :
-    ('#' ∉ i.toList ∧ i ≠ "" ∧ (J.keys rb).Nodup ∧ ∀ k ∈ J.keys rb, k ∉ J.keys (("id", J.str i) :: ra))
+    (i ≠ "" ∧ (J.keys rb).Nodup ∧ ∀ k ∈ J.keys rb, k ∉ J.keys (("id", J.str i) :: ra))
       ∧ GoodElem (ra ++ rb) := by
   have hsubA := names_subA fs
   have hsubB := names_subB fs
@@ -171,7 +171,7 @@ theorem shares_good (h : Fam c A B T q fs) (i : String) (ra rb : List (String ×
     intro hk
     have := h.hfb "__typename" (hkeysAB _ hk)
     simp [isBuiltinName] at this
-  exact ⟨⟨hi, hine, hbnd, hdisj⟩, hid, htn, hne⟩
+  exact ⟨⟨hine, hbnd, hdisj⟩, hid, htn, hne⟩
 
 /-- the share of the single-server answer for the fields `sub` on the entity with id `i` -/
 def shareOf (S : Schema) (D : Data) (sub : List FieldSpec) (i : String) : List (String × J) :=
@@ -189,7 +189,7 @@ theorem shareOf_eq (S : Schema) (D : Data) (sub : List FieldSpec) (e : Entity) (
 theorem flat_list_one_hop_calls (h : Fam c A B T q fs)
     (svcs : List Svc) (SA SB : Schema) (D : Data) (es : List Entity) (rs : List (List (String × J)))
     (hq1 : '#' ∉ q.toList) (hq2 : ':' ∉ q.toList) (hqne : q ≠ "")
-    (hi : ∀ e ∈ es, '#' ∉ e.id.toList ∧ e.id ≠ "")
+    (hi : ∀ e ∈ es, e.id ≠ "")
     (hnne : ∀ n ∈ namesOf fs, n ≠ "")
     (hsA : svcs.find? (·.url == A) = some ⟨A, SA⟩) (hsB : svcs.find? (·.url == B) = some ⟨B, SB⟩)
     (hSB : ∃ td, SB.type? T = some td ∧ td.kind = .object)
@@ -225,10 +225,10 @@ theorem flat_list_one_hop_calls (h : Fam c A B T q fs)
       ∧ GoodId aOf bOf e.id ∧ GoodElem (aOf e.id ++ bOf e.id) := by
     intro e he
     obtain ⟨ra, rb, hra, hrb, hperm, hownA, hvalB, hkA, hkB, hne⟩ :=
-      entity_shares h SA SB D e ((g e).getD []) hnne (hi e he).2 (hsome e he)
+      entity_shares h SA SB D e ((g e).getD []) hnne (hi e he) (hsome e he)
     have ha : aOf e.id = ra := shareOf_eq c.schema D (fsA fs) e ra (hent1 e he) hra
     have hb : bOf e.id = rb := shareOf_eq c.schema D (fsB fs) e rb (hent1 e he) hrb
-    have hgood := shares_good h e.id ra rb (hi e he).1 (hi e he).2 hkA hkB hne
+    have hgood := shares_good h e.id ra rb (hi e he) hkA hkB hne
     rw [ha, hb]
     exact ⟨hperm, hownA, hvalB, by unfold GoodId; rw [ha, hb]; exact hgood.1, hgood.2⟩
   let ids := es.map (fun e => e.id)
@@ -297,7 +297,7 @@ theorem flat_list_one_hop_calls (h : Fam c A B T q fs)
 theorem flat_list_one_hop (h : Fam c A B T q fs)
     (svcs : List Svc) (SA SB : Schema) (D : Data) (es : List Entity) (rs : List (List (String × J)))
     (hq1 : '#' ∉ q.toList) (hq2 : ':' ∉ q.toList) (hqne : q ≠ "")
-    (hi : ∀ e ∈ es, '#' ∉ e.id.toList ∧ e.id ≠ "")
+    (hi : ∀ e ∈ es, e.id ≠ "")
     (hnne : ∀ n ∈ namesOf fs, n ≠ "")
     (hsA : svcs.find? (·.url == A) = some ⟨A, SA⟩) (hsB : svcs.find? (·.url == B) = some ⟨B, SB⟩)
     (hSB : ∃ td, SB.type? T = some td ∧ td.kind = .object)
